@@ -1,4 +1,4 @@
-\* quick exhaustive safety: 4 headers, channel capacity 2, <=2 failures per height, any consumer pace, cancel/stop/feed-close anywhere
+\* the node wiring: the feed is the relay of nodebuilder/header Service.Subscribe (safety)
 SPECIFICATION Spec
 CONSTANTS
   N = 4
@@ -7,7 +7,7 @@ CONSTANTS
   MaxFail = 2
   AllowOk = TRUE
   StopInRetry = TRUE
-  Relay = FALSE
+  Relay = TRUE
   RecordHist = FALSE
 INVARIANTS TypeOK InOrderNoGapNoDup OnePerHeader ClosesOnlyWhen
 PROPERTIES RetryNotSkip NoSendAfterClose
